@@ -23,6 +23,7 @@ import (
 	"github.com/honeytrap/honeytrap/event"
 	"github.com/honeytrap/honeytrap/pushers"
 	"github.com/honeytrap/honeytrap/services"
+	"github.com/honeytrap/honeytrap/utils/berlen"
 	"github.com/op/go-logging"
 )
 
@@ -77,6 +78,12 @@ func (s *snmpService) Handle(_ context.Context, conn net.Conn) error {
 	buf := make([]byte, asnSize)
 	n, err := b.Read(buf)
 	if err != nil {
+		return err
+	}
+
+	// the decoder allocates the declared length of every element: make sure
+	// no element claims more than the datagram holds
+	if err := berlen.Check(buf[:n]); err != nil {
 		return err
 	}
 
